@@ -28,7 +28,7 @@ def demo_cmd(d, wt):
     if os.path.exists(os.path.join(d, "demo_test.go")):
         return "go test -vet=off -count=1 -run TestSeedDemo ./src", True
     if os.path.exists(os.path.join(d, "demo.sh")):
-        return "sh %s %s </dev/null" % (os.path.join(d, "demo.sh"), wt), False
+        return "bash %s %s </dev/null" % (os.path.join(d, "demo.sh"), wt), False
     raise SystemExit("no demonstration in " + d)
 
 
